@@ -6,6 +6,7 @@
     (Model/RowText.v), against Model/RowScale.v and the shared-scale clause. *)
 From Perf Require Import Base.Bytes Base.Sx Base.B64 Base.SxF Base.FmtFixed Model.Scale Model.ScaleSpec Model.RowScale.
 From Perf Require Model.RowText.
+From Perf Require Base.Unicode Model.Units.
 Local Open Scope Z_scope.
 
 Definition obs_scaler := option (Z * b64 * bytes).     (* None = panic *)
@@ -391,8 +392,76 @@ Definition known_ok (c : case) : bool :=
   | KFormat _ _ _ _ _ _ => prop_ok c
   end.
 
+(** ** kind 5: a HISTORY of calls made one after the other in ONE process that
+    had not used the package before (harness/cmd/c10proc, run once per case), or
+    in the generator's own process.  A step is an observation of kind 1
+    (CommonScale + Format of every value, Scale for a lone value), of kind 3
+    (ClassOf), or [(9 unit v tv tu)]: Tidy(v, unit) = (tv, tu).  The package's
+    state is its three threshold tables, written at initialisation only, and
+    Tidy's memo table; so the model answers every call as if it were the only
+    one (Model/Scale.v, Model/Units.v: pure functions), and the property judges
+    every step by its own clause, whatever came before: ClassOf is a function of
+    the unit alone (spec_class), a scaled value has its significant digits
+    within half a unit "as for any other order".  No allowance: the histories
+    the harness builds avoid the inputs of the known findings, so [prop_ok] is
+    the judge and a history is never excused. *)
+Inductive hstep :=
+  | HCase (c : case)                            (* KCommon or KClass *)
+  | HTidy (u : bytes) (v tv : b64) (tu : bytes).
+
+Definition decode_step (s : sx) : option hstep :=
+  match s with
+  | SL [SZ 9; SB u; v; tv; SB tu] =>
+      do v <- as_f64 v; do tv <- as_f64 tv; Some (HTidy u v tv tu)
+  | _ =>
+      match decode s with
+      | Some (KClass u c) => Some (HCase (KClass u c))
+      | Some (KCommon cls vals sc strs ss same) => Some (HCase (KCommon cls vals sc strs ss same))
+      | _ => None
+      end
+  end.
+
+Definition step_corr (st : hstep) : bool :=
+  match st with
+  | HCase c => corr_ok c
+  | HTidy u v tv tu =>
+      let '(mv, mu) := Units.tidy Unicode.go_is_space v u in b64_same mv tv && beq mu tu
+  end.
+
+(** Tidy is judged by C04; here it is only a step that may disturb the others *)
+Definition step_prop (st : hstep) : bool :=
+  match st with
+  | HCase c => prop_ok c
+  | HTidy _ _ _ _ => true
+  end.
+
+(** "a function of the unit alone": within one history every ClassOf of a unit
+    gives one class (implied by [step_prop] on each; stated for the replay) *)
+Fixpoint class_obs (h : list hstep) : list (bytes * Z) :=
+  match h with
+  | HCase (KClass u c) :: h' => (u, c) :: class_obs h'
+  | _ :: h' => class_obs h'
+  | [] => []
+  end.
+Fixpoint class_consistent (l : list (bytes * Z)) : bool :=
+  match l with
+  | [] => true
+  | (u, c) :: l' => forallb (fun '(u', c') => negb (beq u u') || (c =? c')) l' && class_consistent l'
+  end.
+
+Definition hist_corr (h : list hstep) : bool := forallb step_corr h.
+Definition hist_prop (h : list hstep) : bool := forallb step_prop h && class_consistent (class_obs h).
+
 Definition run_case (s : sx) : N :=
-  match decode s with
-  | Some c => code_of3 (corr_ok c) (prop_ok c) (known_ok c)
-  | None => code_undecodable
+  match s with
+  | SL [SZ 5; steps] =>
+      match as_list decode_step steps with
+      | Some h => code_of (hist_corr h) (hist_prop h)
+      | None => code_undecodable
+      end
+  | _ =>
+      match decode s with
+      | Some c => code_of3 (corr_ok c) (prop_ok c) (known_ok c)
+      | None => code_undecodable
+      end
   end.
